@@ -89,6 +89,18 @@ class Bench:
                 s = "\n".join(("T%d" % k) if k else "" for k in toks)
                 if s != "":
                     t.cell(i, j).text = s
+                if any(k >= 200 for k in toks):
+                    # a paragraph whose only content is a FIELD: no API makes one; the run is rewritten as PowerPoint writes a field
+                    tc = [x for x in [r for r in next(gf._element.iter("{%s}tbl" % A)) if r.tag == _TR][i] if x.tag == _TC][j]
+                    for r_ in list(tc.iter("{%s}r" % A)):
+                        tx = r_.find(_T)
+                        if tx is not None and _tok(tx.text or "") >= 200:
+                            fld = etree.Element("{%s}fld" % A)
+                            fld.set("id", "{B7F3A1C2-0D4E-4F5A-9B6C-7D8E9F0A1B2C}")
+                            fld.set("type", "slidenum")
+                            for ch in list(r_):
+                                fld.append(ch)
+                            r_.getparent().replace(r_, fld)
 
     @staticmethod
     def make_variant(gf, var: int):
